@@ -329,14 +329,14 @@ def run_c19(tier, seed, replay=None):
 # =====================================================================  C20
 MESHES = dict(quick=['tet1', 'tetfan', 'polyfan', 'polydel', 'polymix', 'hex1', 'hexblock221'],
               thorough=['tet1', 'tetfan', 'polyfan', 'polydel', 'polymix', 'hex1', 'hexblock221', 'hexblock222', 'hexblock321'])
-GEN = dict(quick=dict(ThreadCounts=[2, 3, 4, 8, 16], RndCases=2, RndLen=200, Reps=3, RepsBig=20),
-           thorough=dict(ThreadCounts=[2, 3, 4, 5, 6, 8, 12, 16], RndCases=6, RndLen=400, Reps=8, RepsBig=50))
+GEN = dict(quick=dict(ThreadCounts=[2, 3, 4, 8, 16], SameCounts=[2, 4, 16], RndCases=2, RndLen=200, Reps=3, RepsBig=20),
+           thorough=dict(ThreadCounts=[2, 3, 4, 5, 6, 8, 12, 16], SameCounts=[2, 3, 4, 8, 16], RndCases=6, RndLen=400, Reps=8, RepsBig=50))
 # (name, readers, hazard, program length, query set); hazards are negative controls: TLC must reject them
 MC = dict(quick=[('r2', 'R2', 'none', 2, 'MCQ6'), ('r3', 'R3', 'none', 2, 'MCQ3'), ('r4', 'R4', 'none', 1, 'MCQ4'),
                  ('hz-shared', 'R2', 'shared_scratch', 1, 'MCQ4'), ('hz-lazy', 'R2', 'lazy_cache', 1, 'MCQ4')],
           thorough=[('r2', 'R2', 'none', 3, 'MCQ6'), ('r3', 'R3', 'none', 2, 'MCQ6'), ('r4', 'R4', 'none', 2, 'MCQ3'),
                     ('hz-shared', 'R3', 'shared_scratch', 1, 'MCQ4'), ('hz-lazy', 'R3', 'lazy_cache', 1, 'MCQ4')])
-TSAN_ENV = dict(TSAN_OPTIONS='halt_on_error=0 exitcode=0 report_thread_leaks=0 second_deadlock_stack=1')
+TSAN_ENV = dict(TSAN_OPTIONS='halt_on_error=0 exitcode=0 report_thread_leaks=0 second_deadlock_stack=1', READERS_CASE_TIMEOUT='600')
 
 
 def c20_mc(name, readers, hazard, plen, qset, work):
@@ -370,13 +370,19 @@ def c20_exec(variant, sp, work):
     t0 = time.time()
     with open(trace, 'w') as fo, open(err, 'w') as fe:
         try:
-            r = subprocess.run([exe_path(variant, 'readers_exec'), sp], stdout=fo, stderr=fe, timeout=1800, env=e)
+            r = subprocess.run([exe_path(variant, 'readers_exec'), sp], stdout=fo, stderr=fe, timeout=7200, env=e)
         except subprocess.TimeoutExpired:
             raise MachineryError('readers_exec (%s) timeout on %s' % (variant, sp))
     etxt = open(err).read()
     reports = etxt.count('WARNING: ThreadSanitizer')
-    if r.returncode != 0 and not reports:
-        raise MachineryError('readers_exec (%s) failed (exit %d) on %s: %s' % (variant, r.returncode, sp, etxt[-1500:]))
+    # every case runs in a forked child of the executor: a crash of the library under concurrent queries is recorded as a
+    # {"e":"crash"} line and judged by the trace spec.  The top-level process itself (mesh construction, script parsing)
+    # is single-threaded: if IT dies, the tooling is broken.
+    with open(trace, 'rb') as f:
+        f.seek(max(0, os.path.getsize(trace) - 200))
+        tail = f.read().decode(errors='replace').strip().splitlines()
+    if r.returncode != 0 or not tail or not tail[-1].startswith('{"e":"end"'):
+        raise MachineryError('readers_exec (%s) top-level process failed (exit %d) on %s: %s' % (variant, r.returncode, sp, etxt[-1500:]))
     return dict(trace=trace, err=err, tsan_reports=reports, wall=time.time() - t0, rc=r.returncode)
 
 
@@ -401,10 +407,12 @@ def c20_replay_file(sp, case, msg):
 
 def c20_coverage_of(trace):
     """bookkeeping for the evidence: which (mesh, query) pairs ran on >= 2 threads of one case with a non-empty answer"""
-    alpha, conc, runs, sample = None, set(), 0, None
+    alpha, conc, runs, sample, mesh = None, set(), 0, None, None
     for line in open(trace):
         d = json.loads(line)
-        if d['e'] == 'alpha':
+        if d['e'] == 'mesh':
+            mesh = d['name']
+        elif d['e'] == 'alpha':
             alpha = d['q']
         elif d['e'] == 'run':
             runs += 1
@@ -420,7 +428,7 @@ def c20_coverage_of(trace):
                 sample = dict(mesh=d['mesh'], case=d['case'], threads=d['threads'], reps=d['reps'],
                               program_prefix_thread0=[alpha[k] for k in d['progs'][0][:5]],
                               a_query=alpha[i], its_single_threaded_answer=d['seq'][i], its_answer_on_the_last_thread=d['last'][-1][0])
-    return dict(queries=len(alpha or []), conc=conc, mesh=sample['mesh'] if sample else None, runs=runs, sample=sample)
+    return dict(queries=len(alpha or []), conc=conc, mesh=mesh, runs=runs, sample=sample)
 
 
 def run_c20(tier, seed, replay=None):
@@ -451,8 +459,9 @@ def run_c20(tier, seed, replay=None):
                     fo.write(r.stdout.splitlines()[0] + '\n')
             # 2. TLC derives the alphabet of every mesh and the programs
             g = GEN[tier]
-            cfg = ('SPECIFICATION Spec\nCONSTANTS\n  Seed = %d\n  ThreadCounts = %s\n  RndCases = %d\n  RndLen = %d\n  Reps = %d\n  RepsBig = %d\n'
-                   'INVARIANT EmitCase\nCHECK_DEADLOCK FALSE\n' % (seed % 100000, vlib.tla_set(g['ThreadCounts']), g['RndCases'], g['RndLen'], g['Reps'], g['RepsBig']))
+            cfg = ('SPECIFICATION Spec\nCONSTANTS\n  Seed = %d\n  ThreadCounts = %s\n  SameCounts = %s\n  RndCases = %d\n  RndLen = %d\n  Reps = %d\n  RepsBig = %d\n'
+                   'INVARIANT EmitCase\nCHECK_DEADLOCK FALSE\n' % (seed % 100000, vlib.tla_set(g['ThreadCounts']), vlib.tla_set(g['SameCounts']),
+                                                                     g['RndCases'], g['RndLen'], g['Reps'], g['RepsBig']))
             rc, out, wall = tlc('OVMReadersGen.tla', cfg, work, 'gen', workers=2, env=dict(MESHES=mfile), heap='6g')
             if rc != 0:
                 raise MachineryError('program generation failed:\n' + open(out).read()[-2000:])
@@ -498,7 +507,7 @@ def run_c20(tier, seed, replay=None):
     for x in runs:
         for b in x['val']['bads']:
             if b['msg'].startswith('MACHINERY'):
-                raise MachineryError('trace %s: %s' % (x['trace'], b['msg']))
+                raise MachineryError('trace %s case %d: %s (the case also fails without any concurrency: not a C20 matter)' % (x['trace'], b['n'], b['msg']))
             viol.append(dict(kind='trace', msg=b['msg'].split(' thread')[0], case=b['n'], script=x['script'], variant=x['variant']))
         if x['tsan_reports']:
             viol.append(dict(kind='tsan', msg='ThreadSanitizer', case=None, script=x['script'], variant=x['variant'], report=x['err'],
